@@ -50,6 +50,7 @@ type ReverseSuffixSetSearcher struct {
 	suffixLiterals *literal.Seq // All suffix literals
 	matchStartZero bool         // True if pattern starts with .* (match always starts at 0)
 	revCachePool   sync.Pool
+	fwdCachePool   sync.Pool
 }
 
 // NewReverseSuffixSetSearcher creates a reverse suffix set searcher.
@@ -124,6 +125,9 @@ func NewReverseSuffixSetSearcher(
 	s.revCachePool = sync.Pool{
 		New: func() any { return s.reverseDFA.NewCache() },
 	}
+	s.fwdCachePool = sync.Pool{
+		New: func() any { return s.forwardDFA.NewCache() },
+	}
 	return s, nil
 }
 
@@ -137,69 +141,11 @@ func (s *ReverseSuffixSetSearcher) Find(haystack []byte) *Match {
 	if len(haystack) == 0 {
 		return nil
 	}
-
-	// Acquire cache once for the entire candidate loop
-	revCache := s.revCachePool.Get().(*lazy.DFACache)
-	defer s.revCachePool.Put(revCache)
-
-	// For greedy matching, find the LAST suffix candidate
-	// We scan forward and keep track of the last valid match
-	var lastMatch *Match
-	start := 0
-	minStart := 0 // Anti-quadratic guard for reverse scans
-
-	for {
-		// Find next suffix candidate
-		pos := s.prefilter.Find(haystack, start)
-		if pos == -1 {
-			break
-		}
-
-		// Get the length of the matched suffix literal
-		suffixLen := s.getSuffixLen(haystack, pos)
-		if suffixLen == 0 {
-			start = pos + 1
-			continue
-		}
-
-		suffixEnd := pos + suffixLen
-		if suffixEnd > len(haystack) {
-			suffixEnd = len(haystack)
-		}
-
-		// For unanchored patterns, .* cannot cross \n boundaries.
-		// Match starts at the beginning of the line containing the suffix.
-		if s.matchStartZero {
-			matchStart := lineStartBefore(haystack, 0, pos)
-			lastMatch = NewMatch(matchStart, suffixEnd, haystack)
-		} else {
-			// Use reverse DFA with anti-quadratic guard to find match start
-			matchStart := s.reverseDFA.SearchReverseLimited(revCache, haystack, 0, suffixEnd, minStart)
-			if matchStart == lazy.SearchReverseLimitedQuadratic {
-				// Quadratic behavior detected - fall back to PikeVM
-				pStart, pEnd, found := s.pikevm.Search(haystack)
-				if found {
-					return NewMatch(pStart, pEnd, haystack)
-				}
-				return lastMatch
-			}
-			if matchStart >= 0 {
-				lastMatch = NewMatch(matchStart, suffixEnd, haystack)
-			}
-			// Update anti-quadratic guard
-			if suffixEnd > minStart {
-				minStart = suffixEnd
-			}
-		}
-
-		start = pos + 1
-		if start >= len(haystack) {
-			break
-		}
-	}
-
-	return lastMatch
+	// The leftmost match is what FindAt reports from position 0 (scanning all
+	// suffix occurrences and keeping the last one found gave the rightmost).
+	return s.FindAt(haystack, 0)
 }
+
 
 // FindAt searches for a match starting from position 'at'.
 // Includes anti-quadratic guard to prevent O(n^2) behavior with many suffix false positives.
@@ -272,7 +218,11 @@ func (s *ReverseSuffixSetSearcher) FindAt(haystack []byte, at int) *Match {
 		// Use reverse DFA with anti-quadratic guard to find match start
 		matchStart := s.reverseDFA.SearchReverseLimited(revCache, haystack, at, suffixEnd, minStart)
 		if matchStart >= 0 {
-			return NewMatch(matchStart, suffixEnd, haystack)
+			mStart, mEnd, ok := s.matchEndFrom(haystack, matchStart)
+			if ok {
+				return NewMatch(mStart, mEnd, haystack)
+			}
+			return nil
 		}
 		if matchStart == lazy.SearchReverseLimitedQuadratic {
 			// Quadratic behavior detected - fall back to PikeVM
@@ -377,7 +327,7 @@ func (s *ReverseSuffixSetSearcher) findIndicesAtImpl(haystack []byte, at int, re
 		// Use reverse DFA with anti-quadratic guard to find match start
 		matchStart := s.reverseDFA.SearchReverseLimited(revCache, haystack, at, suffixEnd, minStart)
 		if matchStart >= 0 {
-			return matchStart, suffixEnd, true
+			return s.matchEndFrom(haystack, matchStart)
 		}
 		if matchStart == lazy.SearchReverseLimitedQuadratic {
 			// Quadratic behavior detected - fall back to PikeVM
@@ -454,6 +404,21 @@ func (s *ReverseSuffixSetSearcher) IsMatch(haystack []byte) bool {
 
 // getSuffixLen returns the length of the suffix literal that matched at position pos.
 // This iterates through all suffix literals to find which one matched.
+// matchEndFrom completes a match whose start was found by the reverse scan:
+// the suffix occurrence that led here need not be where the leftmost-first
+// match ends (a greedy wildcard runs on to a later suffix), so the end comes
+// from a forward search anchored at nothing earlier than matchStart.
+func (s *ReverseSuffixSetSearcher) matchEndFrom(haystack []byte, matchStart int) (start, end int, found bool) {
+	fwdCache := s.fwdCachePool.Get().(*lazy.DFACache)
+	matchEnd := s.forwardDFA.SearchAt(fwdCache, haystack, matchStart)
+	s.fwdCachePool.Put(fwdCache)
+	if matchEnd >= 0 {
+		return matchStart, matchEnd, true
+	}
+	return s.pikevm.SearchAt(haystack, matchStart)
+}
+
+// getSuffixLen returns the length of the suffix literal matching at pos, or 0.
 func (s *ReverseSuffixSetSearcher) getSuffixLen(haystack []byte, pos int) int {
 	for i := 0; i < s.suffixLiterals.Len(); i++ {
 		lit := s.suffixLiterals.Get(i)
